@@ -76,6 +76,9 @@ class Routine:
         self.insn_count = 0
         self.rets = 0
         self.succ = {}          # addr -> [addr]
+        self.regw = {}          # addr -> set of registers (possibly) written
+        self.flagw = {}         # addr -> {reg: bool}: the value written derives from the carry/borrow flag
+        self.ret_addrs = []
         self.min_sp = 0
 
     def reachable_from(self, a):
@@ -135,6 +138,13 @@ def analyse_x86(insns, order, entry, name):
         init[r] = ('cs', r)
     init['rsp'] = ('sp', 0)
     states = {entry: (init, {})}          # addr -> (regs, stack slots {sp offset: abstract})
+    zero = {}                              # straight-line only: registers known to hold 0
+    join_points = set()
+    for i_ in insns.values():
+        if i_.mnem.startswith('j') and i_.ops:
+            m_ = re.match(r'^(?:0x)?([0-9a-f]+)$', i_.ops[0])
+            if m_:
+                join_points.add(int(m_.group(1), 16))
     work = [entry]
     visited = set()
     idx = {a: i for i, a in enumerate(order)}
@@ -153,6 +163,8 @@ def analyse_x86(insns, order, entry, name):
         R.insn_count += 1
         mn = ins.mnem
         ops = ins.ops
+        if mn.startswith('j') or a in join_points:
+            zero.clear()
         nxt = order[idx[a] + 1] if idx[a] + 1 < len(order) else None
         succs = []
 
@@ -189,6 +201,7 @@ def analyse_x86(insns, order, entry, name):
         width = 4 if mn.endswith('l') and mn not in ('mull',) else 8
         if mn in ('retq', 'ret'):
             R.rets += 1
+            R.ret_addrs.append(a)
             for r in X86_CALLEE_SAVED:
                 if regs.get(r) != ('cs', r):
                     R.problems.append('callee-saved %%%s not restored at ret %#x' % (r, a))
@@ -230,6 +243,7 @@ def analyse_x86(insns, order, entry, name):
                 R.accesses.append(Access(a, 'R', 'sp', sp[1], 8, ins.text))
                 if dst:
                     regs[dst] = slots.get(sp[1])
+                    R.regw.setdefault(a, set()).add(dst)
                 regs['rsp'] = ('sp', sp[1] + 8)
         else:
             # generic: last operand is the destination (AT&T)
@@ -243,6 +257,7 @@ def analyse_x86(insns, order, entry, name):
                     mem_access(ops[0], 'R', 8)
                 regs['rax'] = None
                 regs['rdx'] = None
+                R.regw.setdefault(a, set()).update(['rax', 'rdx'])
             elif mn == 'cpuid':
                 for r in ('rax', 'rbx', 'rcx', 'rdx'):
                     regs[r] = None
@@ -285,6 +300,21 @@ def analyse_x86(insns, order, entry, name):
                     if d == 'rsp' and newv is None:
                         R.problems.append('stack pointer becomes untracked at %#x (%s)' % (a, ins.text))
                     regs[d] = newv
+                    R.regw.setdefault(a, set()).add(d)
+                    srcreg = x86_reg(srcs[0]) if len(srcs) == 1 else None
+                    same = srcreg is not None and srcreg == d
+                    if mn in ('setb', 'setc', 'setae', 'setnc', 'seto') or (mn in ('sbbq', 'sbbl') and same) or \
+                       (mn in ('adcq', 'adcl') and same and zero.get(d)):
+                        fd = True
+                    elif mn in ('negq', 'movzbq', 'movzbl', 'andq', 'andl') :
+                        fd = 'keep'
+                    elif mn in ('movq', 'movl') and srcreg is not None:
+                        fd = ('copy', srcreg)
+                    else:
+                        fd = False
+                    R.flagw.setdefault(a, {})[d] = fd
+                    zero[d] = (mn in ('movq', 'movl') and len(srcs) == 1 and srcs[0] in ('$0', '$0x0')) or \
+                              (mn in ('xorq', 'xorl') and same)
         flow(nxt, regs, slots)
         R.succ[a] = succs
     if R.rets == 0:
@@ -360,6 +390,7 @@ def analyse_a64(insns, order, entry, name):
 
         if mn == 'ret':
             R.rets += 1
+            R.ret_addrs.append(a)
             for r in A64_CALLEE_SAVED:
                 if regs.get(r) != ('cs', r):
                     R.problems.append('callee-saved %s not restored at ret %#x' % (r, a))
@@ -412,6 +443,7 @@ def analyse_a64(insns, order, entry, name):
                             r = a64_reg(ops[i])
                             if r and r not in ('xzr', 'wzr'):
                                 regs[r] = slots.get(addr_v[1] + 8 * i) if addr_v[0] == 'sp' else None
+                                R.regw.setdefault(a, set()).add(r)
                     if wb_pre:
                         regs[base] = addr_v
                     elif post:
@@ -430,6 +462,16 @@ def analyse_a64(insns, order, entry, name):
                 if d == 'sp' and newv is None:
                     R.problems.append('stack pointer becomes untracked at %#x (%s)' % (a, ins.text))
                 regs[d] = newv
+                R.regw.setdefault(a, set()).add(d)
+                if mn in ('cset', 'csetm', 'adc', 'adcs', 'sbc', 'sbcs', 'ngc', 'ngcs', 'cinc'):
+                    fd = True
+                elif mn == 'mov' and len(ops) == 2 and a64_reg(ops[1]):
+                    fd = ('copy', a64_reg(ops[1]))
+                elif mn in ('neg', 'and'):
+                    fd = 'keep'
+                else:
+                    fd = False
+                R.flagw.setdefault(a, {})[d] = fd
         flow(nxt, regs, slots)
         R.succ[a] = succs
     if R.rets == 0:
@@ -610,3 +652,50 @@ def make_alias_summary(tbl):
                 return 'stores `%s` before loading `%s`, which overlaps it when argument %d and argument %d are the same object' % (w.text, r.text, o, i)
         return None
     return summary
+
+
+def must_facts(R, out_arg=0, retreg=None):
+    """(bytes of argument `out_arg` written on EVERY path to every ret, is `retreg` written on every path to every ret,
+    {arg: set of bytes read on some path})"""
+    preds = {}
+    for a, ss in R.succ.items():
+        for b in ss:
+            preds.setdefault(b, []).append(a)
+    order = sorted(R.succ)
+    wbytes = {}
+    for acc in R.accesses:
+        if acc.kind == 'W' and acc.base == 'arg%d' % out_arg:
+            wbytes.setdefault(acc.addr, set()).update(range(acc.off, acc.off + acc.width))
+    MW, RW = {}, {}
+    FD = {}     # addr -> set of registers currently holding a flag-derived value (must, intersection at joins)
+    for a in order:
+        ps = [p for p in preds.get(a, []) if p in MW]
+        if not ps:
+            inb, inr, infd = set(), False, set()
+        else:
+            inb = set.intersection(*[MW[p] for p in ps])
+            inr = all(RW[p] for p in ps)
+            infd = set.intersection(*[FD[p] for p in ps])
+        MW[a] = inb | wbytes.get(a, set())
+        fd = set(infd)
+        for reg in R.regw.get(a, set()):
+            how = R.flagw.get(a, {}).get(reg, False)
+            if how is True:
+                fd.add(reg)
+            elif how == 'keep':
+                pass
+            elif isinstance(how, tuple) and how[0] == 'copy':
+                (fd.add if how[1] in infd else fd.discard)(reg)
+            else:
+                fd.discard(reg)
+        FD[a] = fd
+        RW[a] = (retreg in fd) if retreg is not None else False
+    rets = [a for a in R.ret_addrs if a in MW]
+    must = set.intersection(*[MW[a] for a in rets]) if rets else set()
+    # at the ret itself nothing is written; use the state flowing into it
+    retw = all(RW[a] for a in rets) if rets else False
+    reads = {}
+    for acc in R.accesses:
+        if acc.kind == 'R' and acc.base.startswith('arg'):
+            reads.setdefault(int(acc.base[3:]), set()).update(range(acc.off, acc.off + acc.width))
+    return must, retw, reads
